@@ -5,12 +5,12 @@ from common import default_matches_known
 import solvelib as S
 from c07 import run_all
 matches_known = default_matches_known
-ORIGINS = ["update", "update_entry", "loss", "grad_nn", "grad_eq"]
+ORIGINS = ["update", "update_entry", "loss", "grad_nn", "grad_eq", "state_only"]
 
 
 def with_injection(cfg, origin, k):
     """threshold-based injections need the un-faulted trajectory of the watched parameter"""
-    if origin in ("update", "update_entry"):
+    if origin in ("update", "update_entry", "state_only"):
         return dict(cfg, inject=dict(origin=origin, k=k))
     ref = S.reference(dict(cfg, inject=None, validation=None))
     vals = [float(p.eq_params["a"]) if origin in ("loss", "grad_eq") else float(p.nn_params.scale) for p in ref["params"]]
@@ -44,7 +44,7 @@ def generate(tier, seed, casedir, variant):
             c["fault_at"] = k
             cfgs.append(c)
     r = run_all(cfgs, casedir, variant, "C18")
-    r["rule"] = ("fault injected at iteration k (every k of 0..n-1 in the thorough tier) from each origin: NaN optimizer update, NaN loss value, NaN gradient of a network leaf, NaN gradient of an equation parameter "
+    r["rule"] = ("fault injected at iteration k (every k of 0..n-1 in the thorough tier) from each origin: NaN optimizer update, NaN loss value, NaN gradient of a network leaf, NaN gradient of an equation parameter, and a NaN confined to a bookkeeping leaf of the optimizer state (no parameter is NaN: training runs to the end) "
                  "(thresholds placed on the un-faulted trajectory); loss kinds and optimizers rotated; non-trivial = at least two iterations executed")
     for o in ORIGINS:
         r["distribution"][f"origin={o}"] = sum(1 for c in cfgs if c["inject"]["origin"] == o)
